@@ -3,40 +3,58 @@
 
   Model: `SalsaVerif.Model.Cycle` (an abstraction of salsa's provisional-memo reuse: every
   participant is re-evaluated once per iteration of the outermost head; see the header there).
-  Reference: `lfp P env` = Kleene iteration from ⊥ with fuel `8 * n + 1`.
+  Bodies: `const | input | call | union | inter | ite (on an INPUT) | gate c a` — `gate` is the
+  monotone VALUE-controlled gate (`a` is evaluated, hence its callees are fetched, only when bit 0
+  of the value of `c` is set): the call graph depends on values, cycles form, grow and reshape
+  while iterating.  Reference: `lfp P env` = Kleene iteration from ⊥ with fuel `8 * n + 1`.
 
-  PROVED: `c12_lfp` (+ `_run`, `_history`: any entry node, any history, every memoised node),
-  `c12_stop_is_fix` (+ the loop-level `c12_stop_is_lfp`), `c12_mono`, `c12_lfp_is_fix`,
-  `c12_lfp_is_least`, and (new, via the simulation between consecutive passes of the DFS,
-  `Proofs/CycleChain*.lean`):
+  PROVED FOR ALL PROGRAMS OF THE BODY LANGUAGE, GATES INCLUDED (`NoFallback` only):
+  `c12_mono` (gates are monotone), `c12_lfp_is_fix`, `c12_lfp_is_least` (the fuel bound of the
+  reference), `c12_lfp` (+ `_run`, `_history`: any entry node, any history, every memoised node
+  holds its `lfp` value, the memoised set is closed under the callees UNDER THE FINAL VALUES),
+  `c12_stop_is_fix`, `c12_stop_is_lfp`, `c12_chain_partial` (every provisional value is below
+  `lfp`), `c12_chain_join_partial`, and
+  * `c12_full_gated`: well-formed program without `FallbackImmediate` nodes: EVERY request for an
+    existing node, from any database with correct memos, returns `lfp P env j` and leaves only
+    `lfp` memos and no provisional state — or ends in `panic cycle` / `propagated` /
+    `tooManyIterations` (never out of model fuel, never a wrong value);
+  * `c12_full_recovering_gated`: all nodes `fixpoint`, nothing poisoned: `lfp P env j` or
+    `tooManyIterations`, nothing else.
 
+  PROVED FOR GATE-FREE PROGRAMS (`P.NoGate`, decidable; via the simulation between consecutive
+  passes of the DFS, `Proofs/CycleChain*.lean`):
   * `c12_chain` (full): for the head loop of an outermost head `j`, with `σ t` the state at the
     start of pass `t` (`σ (t+1) = stIter s1_t j new_t`, expressed by `PassStep`, which is exactly
     the iterating branch of `executeMaybeIterate`: `c12_passStep_unfold`),
       `∀ t c w, (σ t).prov.lookup c = some w → ∃ w', (σ (t+1)).prov.lookup c = some w' ∧ le w w'`
     — the provisional values of consecutive passes form an ascending chain, for identity and for
-    join `cycle_fn`s alike, and no head is ever dropped.  (`c12_chain_partial`,
-    `c12_chain_join_partial` are kept.)
+    join `cycle_fn`s alike, and no head is ever dropped.
   * `c12_pass_total`: after the first pass of an outermost head no pass fails: the body of pass
     `t+1` evaluates successfully, its value is above that of pass `t`, and it creates no new
     cycle head (the DFS order is value-independent).
-  * `c12_terminates` (+ `_history`): `NoFallback P → 8 * P.n < 200 →` no request ends in
-    `tooManyIterations` (the measure `Σ_{c<n} card (value of c in the pass)` is bounded by `8·n`
-    and strictly increases with every non-converged pass after the first, so a head loop makes
-    at most `8·n + 1` passes; `MAX_ITERATIONS = 200`).
-  * `c12_full`: for a well-formed program without `FallbackImmediate` nodes and `8·n < 200`,
-    EVERY request for an existing node, from any database with correct memos, returns
-    `lfp P env j` and leaves only `lfp` memos and no provisional state — or ends in
-    `panic cycle` / `propagated` (a non-recovering member was re-entered / a poisoned head);
-    `c12_full_history` is the same after any history of requests in the revision.
-  * `c12_full_recovering`: if moreover every node has a recovery strategy (`fixpoint`) and
-    nothing is poisoned, the request returns `lfp P env j` — total correctness.
+  * `c12_terminates` (+ `_history`): `NoFallback P → P.NoGate → 8 * P.n < 200 →` no request ends
+    in `tooManyIterations` (the measure `Σ_{c<n} card (value of c in the pass)` is bounded by `8·n`
+    and strictly increases with every non-converged pass after the first).
+  * `c12_full`, `c12_full_history`, `c12_full_recovering`: as the `_gated` forms, without the
+    `tooManyIterations` outcome — total correctness.
 
-  NOT PROVED: nothing of the intended statement.  Possible strengthening (not needed for the
-  property): the bodies are bitwise, so the bits evolve independently and a loop makes at most
-  `n + 1` passes; `P.n < 200` would then suffice in `c12_terminates` instead of `8 * P.n < 200`.
-  The driver corpus and 1.3 M fuzzed requests (programs of up to 7 nodes) never needed more
-  than 3 iterations.
+  WHY `NoGate` THERE.  With gates the three statements are FALSE, in the model and in salsa alike:
+  a later pass can open a gate, reach a node below which a query is re-entered that was a plain
+  participant before; it becomes a NEW nested head and restarts from ∅, so memo values DROP from
+  one pass to the next, gates close again and heads are forgotten.
+  `c12_chain_fails_with_gates` is a 4-node program (all identity `fixpoint`) whose outermost head
+  has the provisional values 13, 5, 13 in passes 1, 2, 3 and loses the head `n3` in between
+  (real salsa: same values, events `C0:1 X1 X2 C0:2 X1 X2 C0:3`); `c12_pass_total` fails on it too
+  (pass 2 creates the head `n1`).  Termination with gates is OPEN: no measure is known (values
+  are not monotone in the pass number); over 50 000 random gated programs (≤ 6 nodes, every entry node) never needed more than 6
+  iterations in the model, and the differential runs (`flavour 6`) never saw
+  `too-many-iterations`.  The model's `outer` flag ("a head that iterated once stays the
+  outermost head") had to go for gates (it made `n0 = n1; n1 = gate(n1, n0) ∪ {0}` diverge where
+  salsa converges); whether `j` is outermost is now decided after every pass, as salsa does.
+
+  NOT PROVED: termination (`tooManyIterations` unreachable) for programs WITH gates; and the
+  possible strengthening for gate-free programs (the bodies are bitwise, so a loop makes at most
+  `n + 1` passes; `P.n < 200` would then suffice instead of `8 * P.n < 200`).
 -/
 import SalsaVerif.Proofs.CycleChainTotal
 import SalsaVerif.Proofs.CycleFuel
@@ -44,9 +62,10 @@ import SalsaVerif.Proofs.CycleFuel
 namespace SalsaVerif.Props.C12
 open SalsaVerif.Model.Cycle SalsaVerif.Proofs.Cycle
 
-/-- `Mono` is automatic for the body language: bodies are monotone in their callees. -/
+/-- `Mono` is automatic for the body language, gates included: bodies are monotone in their
+    callees (those under the larger assignment: a gate open below is open above). -/
 theorem c12_mono (env : Nat → Nat) (ρ ρ' : Nat → Nat) (e : Expr)
-    (h : ∀ c ∈ callees env e, le (ρ c) (ρ' c)) : le (evalExpr env ρ e) (evalExpr env ρ' e) :=
+    (h : ∀ c ∈ callees env ρ' e, le (ρ c) (ρ' c)) : le (evalExpr env ρ e) (evalExpr env ρ' e) :=
   evalExpr_mono env e h
 
 /-- the fuel `8 * n + 1` of the reference suffices: `lfp` is a fixpoint of the equations … -/
@@ -62,8 +81,9 @@ theorem c12_lfp_is_least (P : Prog) (env : Nat → Nat) (σ : Nat → Nat)
 /-- **c12_lfp.**  For a program without `FallbackImmediate` nodes, a request for ANY node `j`
     from a database whose memos are correct (in particular the empty one) that returns a value
     returns `lfp P env j`; afterwards every memo — every node of the cycle and every node
-    evaluated on the way — holds its `lfp` value, the memoised set is closed under callees, and
-    no provisional state is left.  The right-hand sides mention neither the entry node nor the
+    evaluated on the way — holds its `lfp` value, the memoised set is closed under callees (the
+    callees under the final values: those behind a gate count iff the gate is open), and no
+    provisional state is left.  The right-hand sides mention neither the entry node nor the
     history, so the result is independent of both. -/
 theorem c12_lfp (P : Prog) (env : Nat → Nat) (hNF : NoFallback P)
     (final : List (Nat × Nat)) (hdb : DbOk P env final) (poisoned : List Nat)
@@ -71,7 +91,7 @@ theorem c12_lfp (P : Prog) (env : Nat → Nat) (hNF : NoFallback P)
     v = lfp P env j ∧ s.final.lookup j = some v ∧
     (∀ i w, s.final.lookup i = some w → w = lfp P env i) ∧
     (∀ i w, s.final.lookup i = some w →
-      ∀ c ∈ callees env (P.node i).body, (s.final.lookup c).isSome = true) ∧
+      ∀ c ∈ callees env (lfp P env) (P.node i).body, (s.final.lookup c).isSome = true) ∧
     s.stack = [] ∧ s.prov = [] ∧ s.cache = [] := by
   obtain ⟨h1, h2, h3, h4, h5, h6, _, _⟩ := eval_sound P env hNF hdb poisoned j v s h
   exact ⟨h1, h2, h3.ok, h3.closed, h4, h5, h6⟩
@@ -165,37 +185,38 @@ theorem c12_chain_join_partial (P : Prog) (j last v : Nat) :
 abbrev readOf (P : Prog) (env : Nat → Nat) (d : Nat) : Nat → St → Res Fetched :=
   fetch P (execute P env d)
 
-/-- `PassStep … outer s s'` (one non-converged pass of the head loop of `j`, from the start `s`
+/-- `PassStep … s s'` (one non-converged pass of the head loop of `j`, from the start `s`
     of the pass to the start `s' = stIter s1 j new` of the next) is exactly the iterating branch
     of `executeMaybeIterate`. -/
 theorem c12_passStep_unfold (P : Prog) (env : Nat → Nat) (read : Nat → St → Res Fetched)
-    (j : Nat) (outer : Bool) (s s' : St) (fuel stamp stamp' : Nat)
-    (h : PassStep P env read j outer s s')
+    (j : Nat) (s s' : St) (fuel stamp stamp' : Nat)
+    (h : PassStep P env read j s s')
     (hi : SalsaVerif.Gen.Stamp.IterationStamp.increment_iteration stamp = some stamp') :
-    executeMaybeIterate P env read j outer (fuel + 1) stamp s
-      = executeMaybeIterate P env read j true fuel stamp' s' :=
-  passStep_unfold P env read j outer s s' fuel stamp stamp' h hi
+    executeMaybeIterate P env read j (fuel + 1) stamp s
+      = executeMaybeIterate P env read j fuel stamp' s' :=
+  passStep_unfold P env read j s s' fuel stamp stamp' h hi
 
 /-- **c12_chain.**  Let `σ 0` be a reachable state (`Inv`) in which `j` is on top of the stack
     and no cycle head is known — the start of the first pass of an outermost head — and
     `σ (i+1)` the start of the pass after the non-converged pass `i` (`PassSeq`).  Then the
     provisional values of consecutive passes form an ascending chain: every head of pass `t` is a
     head of pass `t+1` with a larger (or equal) provisional value. -/
-theorem c12_chain (P : Prog) (env : Nat → Nat) (hNF : NoFallback P) (d j : Nat) (rest : List Nat)
+theorem c12_chain (P : Prog) (env : Nat → Nat) (hNF : NoFallback P) (hG : P.NoGate)
+    (d j : Nat) (rest : List Nat)
     (σ : Nat → St) (T : Nat) (hσ : PassSeq P env (readOf P env d) j rest σ T) :
     ∀ t, t < T → ∀ c w, (σ t).prov.lookup c = some w →
       ∃ w', (σ (t + 1)).prov.lookup c = some w' ∧ le w w' :=
   loop_chain P env _ j rest (fetch_spec P env hNF (execute_spec P env hNF d))
-    (fetch_RH P env (execute_RH P env hNF d))
-    (fetch_sim P env hNF (execute_spec P env hNF d) (execute_RH P env hNF d)
-      (execute_sim P env hNF d)) hNF σ T hσ
+    (fetch_RH P env (execute_RH P env hNF hG d))
+    (fetch_sim P env hNF (execute_spec P env hNF d) (execute_RH P env hNF hG d)
+      (execute_sim P env hNF hG d)) hNF hG σ T hσ
 
 /-- **c12_pass_total.**  In the same situation the body of pass `t+1` evaluates successfully
     whenever pass `t` did (no panic after the first pass), it creates no new cycle head, its
     value is above that of pass `t`, and the provisional memos of the two passes have the same
     keys with pointwise larger values (the DFS order is value-independent). -/
-theorem c12_pass_total (P : Prog) (env : Nat → Nat) (hNF : NoFallback P) (d j : Nat)
-    (rest : List Nat) (σ : Nat → St) (T : Nat)
+theorem c12_pass_total (P : Prog) (env : Nat → Nat) (hNF : NoFallback P) (hG : P.NoGate)
+    (d j : Nat) (rest : List Nat) (σ : Nat → St) (T : Nat)
     (hσ : PassSeq P env (readOf P env d) j rest σ T) (t : Nat) (ht : t < T) :
     ∃ v hs s1 v' hs' s1', evalM env (readOf P env d) (P.node j).body (σ t) = .ok (v, hs, s1) ∧
       evalM env (readOf P env d) (P.node j).body (σ (t + 1)) = .ok (v', hs', s1') ∧
@@ -203,23 +224,24 @@ theorem c12_pass_total (P : Prog) (env : Nat → Nat) (hNF : NoFallback P) (d j 
       (∀ c w, cval s1 c = some w → ∃ w', cval s1' c = some w' ∧ le w w') ∧
       (∀ c, cval s1 c = none → cval s1' c = none) :=
   loop_pass_total P env _ j rest (fetch_spec P env hNF (execute_spec P env hNF d))
-    (fetch_RH P env (execute_RH P env hNF d))
-    (fetch_sim P env hNF (execute_spec P env hNF d) (execute_RH P env hNF d)
-      (execute_sim P env hNF d)) hNF σ T hσ t ht
+    (fetch_RH P env (execute_RH P env hNF hG d))
+    (fetch_sim P env hNF (execute_spec P env hNF d) (execute_RH P env hNF hG d)
+      (execute_sim P env hNF hG d)) hNF hG σ T hσ t ht
 
-/-- **c12_terminates.**  For a program without `FallbackImmediate` nodes whose lattice height
+/-- **c12_terminates.**  For a gate-free program without `FallbackImmediate` nodes whose lattice height
     `8·n` (8-bit sets, `n` nodes) is below `MAX_ITERATIONS = 200`, a request against a database
     with correct memos never ends in `tooManyIterations`. -/
-theorem c12_terminates (P : Prog) (env : Nat → Nat) (hNF : NoFallback P) (hn : 8 * P.n < 200)
+theorem c12_terminates (P : Prog) (env : Nat → Nat) (hNF : NoFallback P) (hG : P.NoGate)
+    (hn : 8 * P.n < 200)
     (final : List (Nat × Nat)) (hdb : DbOk P env final) (poisoned : List Nat) (j : Nat)
     (e : Panic) (h : eval P env final poisoned j = .error e) : e.cls ≠ .tooManyIterations :=
-  eval_noTM P env hNF hn hdb poisoned j e h
+  eval_noTM P env hNF hG hn hdb poisoned j e h
 
 example : SalsaVerif.Gen.Stamp.MAX_ITERATIONS = 200 := rfl
 
 /-- … after any history of requests in the revision. -/
 theorem c12_terminates_history (P : Prog) (env : Nat → Nat) (hNF : NoFallback P)
-    (hn : 8 * P.n < 200) (js : List Nat) (j : Nat) :
+    (hG : P.NoGate) (hn : 8 * P.n < 200) (js : List Nat) (j : Nat) :
     ((gets P env Db.empty js).get P env j).1 ≠ .panic .tooManyIterations := by
   have hdb : DbOk P env (gets P env Db.empty js).final :=
     dbOk_gets P env hNF js Db.empty (dbOk_nil P env)
@@ -229,21 +251,21 @@ theorem c12_terminates_history (P : Prog) (env : Nat → Nat) (hNF : NoFallback 
   | error e =>
     intro h
     injection h with h
-    exact c12_terminates P env hNF hn _ hdb _ j e he h
+    exact c12_terminates P env hNF hG hn _ hdb _ j e he h
 
-/-- **c12_full.**  Well-formed program, no `FallbackImmediate` node, `8·n < 200`: EVERY request
+/-- **c12_full.**  Well-formed gate-free program, no `FallbackImmediate` node, `8·n < 200`: EVERY request
     for an existing node against a database with correct memos returns `lfp P env j`, leaving
     only `lfp` memos (closed under callees) and no provisional state — or it ends in
     `panic cycle` (a node without recovery was re-entered) or `propagated` (a head poisoned
     earlier in the revision).  No hang, no `tooManyIterations`, no other outcome. -/
 theorem c12_full (P : Prog) (env : Nat → Nat) (hW : P.Wf) (hNF : NoFallback P)
-    (hn : 8 * P.n < 200) (final : List (Nat × Nat)) (hdb : DbOk P env final)
+    (hG : P.NoGate) (hn : 8 * P.n < 200) (final : List (Nat × Nat)) (hdb : DbOk P env final)
     (poisoned : List Nat) (j : Nat) (hj : j < P.n) :
     (∃ s, eval P env final poisoned j = .ok (lfp P env j, s) ∧
       s.final.lookup j = some (lfp P env j) ∧
       (∀ i w, s.final.lookup i = some w → w = lfp P env i) ∧
       (∀ i w, s.final.lookup i = some w →
-        ∀ c ∈ callees env (P.node i).body, (s.final.lookup c).isSome = true) ∧
+        ∀ c ∈ callees env (lfp P env) (P.node i).body, (s.final.lookup c).isSome = true) ∧
       s.stack = [] ∧ s.prov = [] ∧ s.cache = []) ∨
     (∃ e, eval P env final poisoned j = .error e ∧ (e.cls = .cycle ∨ e.cls = .propagated)) := by
   cases h : eval P env final poisoned j with
@@ -256,7 +278,7 @@ theorem c12_full (P : Prog) (env : Nat → Nat) (hW : P.Wf) (hNF : NoFallback P)
     right
     refine ⟨e, rfl, ?_⟩
     have h1 := eval_fuel P env hW final poisoned j hj e h
-    have h2 := c12_terminates P env hNF hn final hdb poisoned j e h
+    have h2 := c12_terminates P env hNF hG hn final hdb poisoned j e h
     cases hc : e.cls with
     | cycle => exact Or.inl rfl
     | propagated => exact Or.inr rfl
@@ -265,13 +287,13 @@ theorem c12_full (P : Prog) (env : Nat → Nat) (hW : P.Wf) (hNF : NoFallback P)
 
 /-- … after any history of requests in the revision (panicking ones included). -/
 theorem c12_full_history (P : Prog) (env : Nat → Nat) (hW : P.Wf) (hNF : NoFallback P)
-    (hn : 8 * P.n < 200) (js : List Nat) (j : Nat) (hj : j < P.n) :
+    (hG : P.NoGate) (hn : 8 * P.n < 200) (js : List Nat) (j : Nat) (hj : j < P.n) :
     (∃ k, ((gets P env Db.empty js).get P env j).1 = .value (lfp P env j) k) ∨
     ((gets P env Db.empty js).get P env j).1 = .panic .cycle ∨
     ((gets P env Db.empty js).get P env j).1 = .panic .propagated := by
   have hdb : DbOk P env (gets P env Db.empty js).final :=
     dbOk_gets P env hNF js Db.empty (dbOk_nil P env)
-  rcases c12_full P env hW hNF hn _ hdb (gets P env Db.empty js).poisoned j hj with
+  rcases c12_full P env hW hNF hG hn _ hdb (gets P env Db.empty js).poisoned j hj with
     ⟨s, hs, _⟩ | ⟨e, he, hc⟩
   · left
     refine ⟨s.iters, ?_⟩
@@ -285,15 +307,90 @@ theorem c12_full_history (P : Prog) (env : Nat → Nat) (hW : P.Wf) (hNF : NoFal
 /-- **c12_full_recovering.**  If moreover every node has a recovery strategy (all `fixpoint`)
     and nothing is poisoned, the request returns the least fixpoint: total correctness. -/
 theorem c12_full_recovering (P : Prog) (env : Nat → Nat) (hW : P.Wf) (hNF : NoFallback P)
-    (hRec : Recovering P) (hn : 8 * P.n < 200) (final : List (Nat × Nat))
+    (hG : P.NoGate) (hRec : Recovering P) (hn : 8 * P.n < 200) (final : List (Nat × Nat))
     (hdb : DbOk P env final) (j : Nat) (hj : j < P.n) :
     ∃ s, eval P env final [] j = .ok (lfp P env j, s) ∧
       (∀ i w, s.final.lookup i = some w → w = lfp P env i) ∧
       s.stack = [] ∧ s.prov = [] ∧ s.cache = [] := by
-  obtain ⟨v, s, h⟩ := eval_ok P env hNF hn hW hRec hdb j hj
+  obtain ⟨v, s, h⟩ := eval_ok P env hNF hG hn hW hRec hdb j hj
   obtain ⟨h1, _, h3, _, h5, h6, h7⟩ := c12_lfp P env hNF final hdb [] j v s h
   subst h1
   exact ⟨s, h, h3, h5, h6, h7⟩
+
+/-! ## programs with value-controlled gates -/
+
+/-- **c12_full_gated.**  Well-formed program without `FallbackImmediate` nodes, gates allowed:
+    EVERY request for an existing node against a database with correct memos returns
+    `lfp P env j`, leaving only `lfp` memos (closed under the callees under the final values) and
+    no provisional state — or it ends in `panic cycle`, `propagated` or `tooManyIterations`.
+    Never a wrong value, never out of model fuel. -/
+theorem c12_full_gated (P : Prog) (env : Nat → Nat) (hW : P.Wf) (hNF : NoFallback P)
+    (final : List (Nat × Nat)) (hdb : DbOk P env final)
+    (poisoned : List Nat) (j : Nat) (hj : j < P.n) :
+    (∃ s, eval P env final poisoned j = .ok (lfp P env j, s) ∧
+      s.final.lookup j = some (lfp P env j) ∧
+      (∀ i w, s.final.lookup i = some w → w = lfp P env i) ∧
+      (∀ i w, s.final.lookup i = some w →
+        ∀ c ∈ callees env (lfp P env) (P.node i).body, (s.final.lookup c).isSome = true) ∧
+      s.stack = [] ∧ s.prov = [] ∧ s.cache = []) ∨
+    (∃ e, eval P env final poisoned j = .error e ∧
+      (e.cls = .cycle ∨ e.cls = .propagated ∨ e.cls = .tooManyIterations)) := by
+  cases h : eval P env final poisoned j with
+  | ok r =>
+    obtain ⟨v, s⟩ := r
+    obtain ⟨h1, h2, h3, h4, h5, h6, h7⟩ := c12_lfp P env hNF final hdb poisoned j v s h
+    subst h1
+    exact Or.inl ⟨s, rfl, h2, h3, h4, h5, h6, h7⟩
+  | error e =>
+    right
+    refine ⟨e, rfl, ?_⟩
+    have h1 := eval_fuel P env hW final poisoned j hj e h
+    cases hc : e.cls with
+    | cycle => exact Or.inl rfl
+    | propagated => exact Or.inr (Or.inl rfl)
+    | tooManyIterations => exact Or.inr (Or.inr rfl)
+    | outOfFuel => exact absurd hc h1
+
+/-- … after any history of requests in the revision. -/
+theorem c12_full_gated_history (P : Prog) (env : Nat → Nat) (hW : P.Wf) (hNF : NoFallback P)
+    (js : List Nat) (j : Nat) (hj : j < P.n) :
+    (∃ k, ((gets P env Db.empty js).get P env j).1 = .value (lfp P env j) k) ∨
+    ((gets P env Db.empty js).get P env j).1 = .panic .cycle ∨
+    ((gets P env Db.empty js).get P env j).1 = .panic .propagated ∨
+    ((gets P env Db.empty js).get P env j).1 = .panic .tooManyIterations := by
+  have hdb : DbOk P env (gets P env Db.empty js).final :=
+    dbOk_gets P env hNF js Db.empty (dbOk_nil P env)
+  rcases c12_full_gated P env hW hNF _ hdb (gets P env Db.empty js).poisoned j hj with
+    ⟨s, hs, _⟩ | ⟨e, he, hc⟩
+  · left
+    refine ⟨s.iters, ?_⟩
+    unfold Db.get; rw [hs]
+  · right
+    unfold Db.get; rw [he]
+    rcases hc with hc | hc | hc
+    · left; show Outcome.panic e.cls = _; rw [hc]
+    · right; left; show Outcome.panic e.cls = _; rw [hc]
+    · right; right; show Outcome.panic e.cls = _; rw [hc]
+
+/-- **c12_full_recovering_gated.**  If moreover every node has a recovery strategy and nothing
+    is poisoned, the request returns the least fixpoint or hits the iteration limit — no
+    `panic cycle`, no `propagated`. -/
+theorem c12_full_recovering_gated (P : Prog) (env : Nat → Nat) (hW : P.Wf) (hNF : NoFallback P)
+    (hRec : Recovering P) (final : List (Nat × Nat))
+    (hdb : DbOk P env final) (j : Nat) (hj : j < P.n) :
+    (∃ s, eval P env final [] j = .ok (lfp P env j, s) ∧
+      (∀ i w, s.final.lookup i = some w → w = lfp P env i) ∧
+      s.stack = [] ∧ s.prov = [] ∧ s.cache = []) ∨
+    (∃ e, eval P env final [] j = .error e ∧ e.cls = .tooManyIterations) := by
+  rcases c12_full_gated P env hW hNF final hdb [] j hj with ⟨s, h, _, h3, _, h5, h6, h7⟩ | ⟨e, h, hc⟩
+  · exact Or.inl ⟨s, h, h3, h5, h6, h7⟩
+  · right
+    refine ⟨e, h, ?_⟩
+    obtain ⟨h3, h4⟩ := eval_noCP P env hNF hW hRec hdb j hj e h
+    rcases hc with hc | hc | hc
+    · exact absurd hc h3
+    · exact absurd hc h4
+    · exact hc
 
 /-! ## non-vacuity -/
 
@@ -369,11 +466,11 @@ example (j : Nat) (hj : j < ex3.n) :
     ∃ s, eval ex3 env1 [] [] j = .ok (lfp ex3 env1 j, s) ∧
       (∀ i w, s.final.lookup i = some w → w = lfp ex3 env1 i) ∧
       s.stack = [] ∧ s.prov = [] ∧ s.cache = [] :=
-  c12_full_recovering ex3 env1 (by decide) ex3_noFallback ex3_recovering (by decide) []
+  c12_full_recovering ex3 env1 (by decide) ex3_noFallback (by decide) ex3_recovering (by decide) []
     (dbOk_nil ex3 env1) j hj
 
 example : ((gets ex3 env1 Db.empty [3, 1]).get ex3 env1 0).1 ≠ .panic .tooManyIterations :=
-  c12_terminates_history ex3 env1 ex3_noFallback (by decide) [3, 1] 0
+  c12_terminates_history ex3 env1 ex3_noFallback (by decide) (by decide) [3, 1] 0
 
 /-- the pass-start states of the head loop of `n0` in the request `get n0` from scratch. -/
 def nextSt3 (s : St) : St :=
@@ -400,11 +497,115 @@ theorem ex3_passSeq : PassSeq ex3 env1 (readOf ex3 env1 5) 0 [] σ3 3 := by
 
 example : ∀ t, t < 3 → ∀ c w, (σ3 t).prov.lookup c = some w →
     ∃ w', (σ3 (t + 1)).prov.lookup c = some w' ∧ le w w' :=
-  c12_chain ex3 env1 ex3_noFallback 5 0 [] σ3 3 ex3_passSeq
+  c12_chain ex3 env1 ex3_noFallback (by decide) 5 0 [] σ3 3 ex3_passSeq
 
 /-- the chain of provisional values `(n0, n1, n2)`: `(9,8,8) ≤ (9,9,8) ≤ (9,9,9)`. -/
 example : ((σ3 0).prov, (σ3 1).prov, (σ3 2).prov, (σ3 3).prov)
     = ([], [(0, 9), (1, 8), (2, 8)], [(0, 9), (1, 9), (2, 8)], [(0, 9), (1, 9), (2, 9)]) := by
   decide
+
+/-! ### value-controlled gates -/
+
+/-- the shape of the generator's `gen_gated_nested_case`: `outer = {3} ∪ inner`,
+    `inner = {0} ∪ gate(outer, gate(inner, {5}))` — the inner query calls the outer one, and then
+    itself, only once their values have bit 0.  Entered through `inner`, the head `inner` iterates
+    once on its own, then discovers that it is nested in `outer` (which is further down the
+    stack) and completes as a nested head; `outer` drives the rest. -/
+def exN : Prog := ⟨[
+  ⟨.fixpoint true, .union (.const 8) (.call 1)⟩,
+  ⟨.fixpoint false, .union (.const 1) (.gate (.call 0) (.gate (.call 1) (.const 32)))⟩]⟩
+
+theorem exN_noFallback : NoFallback exN := by
+  intro j v
+  unfold Prog.node
+  match j with
+  | 0 => simp [exN]
+  | 1 => simp [exN]
+  | n + 2 => simp [exN]
+
+theorem exN_recovering : Recovering exN := by
+  intro c hc
+  unfold Prog.node
+  match c, hc with
+  | 0, _ => simp [exN]
+  | 1, _ => simp [exN]
+  | n + 2, h => exact absurd h (by simp [Prog.n, exN])
+
+example : exN.Wf ∧ ¬ exN.NoGate := by decide
+example : lfpL exN env1 = [41, 33] := by decide
+example : okOf (fun r => (r.1, r.2.iters)) (eval exN env1 [] [] 0) = some (41, 3) := by decide
+example : okOf (fun r => (r.1, r.2.iters)) (eval exN env1 [] [] 1) = some (33, 2) := by decide
+/-- the callees of `inner` under the final values: the gates are open. -/
+example : callees env1 (fun j => (lfpL exN env1).getD j 0) (exN.node 1).body = [0, 1] ∧
+    callees env1 (fun _ => 0) (exN.node 1).body = [0] := by decide
+
+/-- `c12_full_recovering_gated` on a gated program, every entry node: the left disjunct. -/
+example (j : Nat) (hj : j < exN.n) :
+    (∃ s, eval exN env1 [] [] j = .ok (lfp exN env1 j, s) ∧
+      (∀ i w, s.final.lookup i = some w → w = lfp exN env1 i) ∧
+      s.stack = [] ∧ s.prov = [] ∧ s.cache = []) ∨
+    (∃ e, eval exN env1 [] [] j = .error e ∧ e.cls = .tooManyIterations) :=
+  c12_full_recovering_gated exN env1 (by decide) exN_noFallback exN_recovering []
+    (dbOk_nil exN env1) j hj
+
+/-- the counterexample to the chain with gates: `n0 = n1 ∪ n2 ∪ {0} ∪ gate(n2, n3)`,
+    `n1 = {0} ∪ gate(n0, n2)`, `n2 = n1 ∪ {2}`, `n3 = n3 ∪ {3}`, all identity `fixpoint`. -/
+def exG : Prog := ⟨[
+  ⟨.fixpoint false,
+    .union (.union (.call 1) (.call 2)) (.union (.const 1) (.gate (.call 2) (.call 3)))⟩,
+  ⟨.fixpoint false, .union (.const 1) (.gate (.call 0) (.call 2))⟩,
+  ⟨.fixpoint false, .union (.call 1) (.const 4)⟩,
+  ⟨.fixpoint false, .union (.call 3) (.const 8)⟩]⟩
+
+def nextStG (s : St) : St :=
+  match evalM env1 (readOf exG env1 5) (exG.node 0).body s with
+  | .ok (v, _, s1) =>
+    match s1.prov.lookup 0 with
+    | some last => stIter s1 0 (cycleFn exG 0 last v)
+    | none => s
+  | .error _ => s
+
+def σG : Nat → St
+  | 0 => { (St.init [] []) with stack := [0] }
+  | t + 1 => nextStG (σG t)
+
+theorem exG_passSeq : PassSeq exG env1 (readOf exG env1 5) 0 [] σG 3 := by
+  refine ⟨?_, rfl, rfl, ?_⟩
+  · exact inv_push exG env1 (inv_init exG env1 (dbOk_nil exG env1) []) (by simp [St.init]) rfl rfl
+  · intro i hi
+    match i, hi with
+    | 0, _ => exact ⟨_, _, _, _, rfl, rfl, rfl, rfl, rfl⟩
+    | 1, _ => exact ⟨_, _, _, _, rfl, rfl, rfl, rfl, rfl⟩
+    | 2, _ => exact ⟨_, _, _, _, rfl, rfl, rfl, rfl, rfl⟩
+
+set_option maxRecDepth 8000 in
+/-- **the chain fails with gates.**  `exG` is well-formed, all `fixpoint`, and `σG` is the
+    sequence of pass-start states of the head loop of the outermost head `n0` (three
+    non-converged passes), yet the conclusion of `c12_chain` is false at `t = 1`: the provisional
+    value of the outermost head itself drops from 13 to 5, and the head `n3` is forgotten —
+    in pass 2 the gate in `n1` opens, `n1` is re-entered below `n2` and becomes a NEW head that
+    restarts from ∅, `n2` drops from 5 to 4, the gate in front of `n3` closes.  The request
+    still ends in the least fixpoint (`c12_full_gated`). -/
+theorem c12_chain_fails_with_gates :
+    exG.Wf ∧ NoFallback exG ∧ PassSeq exG env1 (readOf exG env1 5) 0 [] σG 3 ∧
+    ¬ (∀ t, t < 3 → ∀ c w, (σG t).prov.lookup c = some w →
+        ∃ w', (σG (t + 1)).prov.lookup c = some w' ∧ le w w') ∧
+    ((σG 1).prov, (σG 2).prov, (σG 3).prov)
+      = ([(3, 8), (0, 13)], [(1, 5), (0, 5)], [(3, 8), (1, 5), (0, 13)]) ∧
+    okOf (fun r => (r.1, r.2.iters)) (eval exG env1 [] [] 0) = some (13, 3) ∧
+    lfpL exG env1 = [13, 5, 5, 8] := by
+  refine ⟨by decide, ?_, exG_passSeq, ?_, by decide, by decide, by decide⟩
+  · intro j v
+    unfold Prog.node
+    match j with
+    | 0 => simp [exG]
+    | 1 => simp [exG]
+    | 2 => simp [exG]
+    | 3 => simp [exG]
+    | n + 4 => simp [exG]
+  · intro h
+    obtain ⟨w', hw', _⟩ := h 1 (by decide) 3 8 (by decide)
+    have : (σG 2).prov.lookup 3 = none := by decide
+    rw [this] at hw'; cases hw'
 
 end SalsaVerif.Props.C12
